@@ -107,8 +107,17 @@ def build(rng):
         H[k] += v
     desc.append(["objective", fterms])
     feasible = np.ones(1 << n, dtype=bool)
+    if rng.random() < 0.25:
+        # the objective is converted once before any constraint exists (to look at its size, say); nothing of that conversion may
+        # survive into the conversions of the constrained model
+        try:
+            getattr(H, rng.choice(["to_qubo", "to_quso", "to_pubo", "to_puso"]))()
+            desc.append(["(converted once before the constraints)"])
+            STEPS["conversion-before-constraints"] = 1
+        except Exception:   # noqa
+            pass
     for ci in range(rng.randint(1, 3)):
-        lam = rng_f + rng.choice([0.5, 1, 7])
+        lam = rng_f + rng.choice([0.5, 1, 7, 0.875, 2.375, 0.125, 0.25])
         if ci and rng.random() < 0.25:
             H.refresh()
             desc.append(["refresh"])
